@@ -9,7 +9,7 @@ SPEC = {
                   "point (next header with another page number in the same magazine) the page is fetched (wildcard, Level 1.0, Level 1.5) and "
                   "every cell of rows 1-24 and of the header columns 8-39 is compared with an independent Level 1 display model written from "
                   "EN 300 706 12.2; page/subpage number, FLOF links, exactly-one page event, vbi_is_cached and vbi_cache_hi_subno are checked "
-                  "at the same points and all pages again at the end. Case 0 sends all 96 codes through every Latin national sub-set "
+                  "at the same points and all pages again at the end. Pages received without X/27/0 are also fetched with navigation: row 24 must read as transmitted. Case 0 sends all 96 codes through every Latin national sub-set "
                   "(tables 33/36). Held on the networks produced, not a proof.",
     "level_note": "Trusted: the transmitter, national option tables and Level 1 display model in harness/c02_ttx.h (written from EN 300 706, "
                   "self-tested on hand vectors, encoders cross-checked against the library's decoders), the transmitter-side cache model in "
